@@ -19,6 +19,9 @@ Instructions (each yields one register unless noted):
   ["aeq", a, b]         a.assert_eq(b)                        (equal values)
   ["azero", a]          a.assert_zero()                       (value 0)
   ["call", fname, mode, [argspec…]]        (yields one register per leaf of the returned structure)
+  ["guard", g, [instr…]]                   run the instructions inside `guarded(regs[g])` (registers are shared)
+  ["try", [instr…]]                        run the instructions, catching the exception of ["raise"] (registers made before it stay)
+  ["raise"]                                raise an exception (class Boom) at this point
 argspec / retspec: register index | {"int": k} | {"list": […]} | {"tuple": […]}
 Inside a body the registers are the flattened non-integer leaves of the arguments, then the body's own.
 
@@ -47,6 +50,19 @@ assert R.backend is B, "qaptools backend not selected: " + R.backend.__name__
 
 events = []
 suppress = [False]
+last_guard = [""]
+
+
+class Boom(Exception):
+    pass
+
+
+def note_guard():
+    g = R.guard
+    rep = "" if g is None else f"{g.value}~{sigstr(g.lc.sig)}"
+    if rep != last_guard[0]:
+        events.append("g:" + rep)
+        last_guard[0] = rep
 snapshot = {"disk": None, "sigs": None}
 
 
@@ -115,6 +131,7 @@ class Interp:
     def __init__(self, case):
         self.funcs = case.get("funcs", {})
         self.calls = []          # per call: name, mode, leaf infos (oracle side information)
+        self.after_exception = []   # [context in which a `try` was entered, vc_ctx when its handler ran]
 
     def build(self, spec, regs):
         if isinstance(spec, int):
@@ -154,12 +171,22 @@ class Interp:
             elif op == "aeq": regs[ins[1]].assert_eq(regs[ins[2]])
             elif op == "azero": regs[ins[1]].assert_zero()
             elif op == "call": regs.extend(self.call(ins[1], ins[2], [self.build(a, regs) for a in ins[3]]))
+            elif op == "guard": R.guarded(regs[ins[1]])(lambda: self.run(ins[2], regs))()
+            elif op == "try":
+                ctx0 = B.vc_ctx
+                try:
+                    self.run(ins[1], regs)
+                except Boom:
+                    # the backend state the program continues in, against the one the `try` statement was entered in
+                    self.after_exception.append([ctx0, B.vc_ctx])
+            elif op == "raise": raise Boom("boom")
             else: raise ValueError("unknown instruction " + str(ins))
 
     def call(self, fname, mode, args):
         var = self.funcs[fname]["variants"][mode]
         me = self
-        info = {"fn": fname, "mode": mode, "args": [leafinfo(x) for x in leaves(args)], "rets": None, "call": None}
+        info = {"fn": fname, "mode": mode, "args": [leafinfo(x) for x in leaves(args)], "rets": None, "call": None,
+                "guard_in": None if R.guard is None else sigstr(R.guard.lc.sig)}
         self.calls.append(info)
         arginfos = [i for i in info["args"] if i]
 
@@ -168,9 +195,16 @@ class Interp:
             info["call"] = B.vc_ctx
             events.append("e:" + fname + ":@D@:" + "^".join(arginfos))
             regs = [x for x in leaves(cargs) if not isinstance(x, int)]     # plain integers are not registers
-            me.run(var["body"], regs)
-            ret = me.build(var["ret"], regs)
+            try:
+                me.run(var["body"], regs)
+                ret = me.build(var["ret"], regs)
+            except BaseException:
+                info["raised"] = True
+                events.append("a")
+                raise
             info["rets"] = [leafinfo(x) for x in leaves(ret)]
+            info["guard"] = None if R.guard is None else [sigstr(R.guard.lc.sig), R.guard.value]
+            note_guard()
             events.append("l:@R@:" + "^".join(i for i in info["rets"] if i))
             suppress[0] = True
             return ret
@@ -231,6 +265,8 @@ def main():
     out["files"] = files
     out["events"] = events
     out["calls"] = it.calls
+    out["after_exception"] = it.after_exception
+    out["ctx_end"] = B.vc_ctx
     out["p"] = B.get_modulus()
     sys.stdout.write(json.dumps(out) + "\n")
     sys.stdout.flush()
